@@ -119,6 +119,10 @@ func init() {
 			ruleRepeatedReader(c)
 			ruleGrowth(c)
 			ruleProtoGrammar(c)
+			ruleRepeatedNesting(c)
+			// "every length is exact": the size/frame laws of every codec that can appear in proto-mode output
+			ruleSizeLaw(c)
+			ruleFrame(c)
 		},
 	})
 }
